@@ -541,8 +541,8 @@ func addrRoot(v ssa.Value, depth int) (rootKind, ssa.Value, []string) {
 			var r0 ssa.Value
 			first := true
 			for _, e := range x.Edges {
-				if e == ssa.Value(x) {
-					continue
+				if stripSlices(e) == ssa.Value(x) {
+					continue // the loop-carried remainder of the same slice: b = b[n:]
 				}
 				k, rt, _ := addrRoot(e, depth)
 				if first {
@@ -1311,4 +1311,19 @@ func privateCapturedCell(fn *ssa.Function, fv *ssa.FreeVar) bool {
 		}
 	}
 	return n > 0
+}
+
+
+// stripSlices removes reslicing and type changes: s[a:b] has the backing array of s.
+func stripSlices(v ssa.Value) ssa.Value {
+	for {
+		switch x := v.(type) {
+		case *ssa.Slice:
+			v = x.X
+		case *ssa.ChangeType:
+			v = x.X
+		default:
+			return v
+		}
+	}
 }
